@@ -96,6 +96,12 @@ CHECKS = {
  'C28': (['asan'], 'event-log monitor vs exact truth-table reference: the tree returned by logical_and/or/not/xor/nand/nor/xnor and piecewise() is evaluated by the monitor (own exact rational evaluator of relationals, Contains and connectives) under every assignment of the symbols from the exact probe set and compared with the formula asked for; violating formulas confirmed in a fresh process and shrunk',
          'Formulas of depth <= 3 over pools of relational atoms (linear in x, y), membership atoms (intervals, finite sets, number sets, unions), their differently-written negations and constants; 100-900 assignments per formula cover every threshold, midpoint and outside point, so each formula is decided exactly on its atoms\' sign patterns.',
          'Atoms are linear with rational constants; a returned tree with a node the monitor does not model is counted, not judged.', 'DESIGN.md 3/C28'),
+ 'C30': (['asan'], 'event-log monitor vs independently known solution sets: polynomials are built from a chosen factorisation (or judged against mpmath.polyroots), the members of the returned set are evaluated by the monitor at 60 digits and compared both ways (soundness, completeness); rational equations against zeros of the numerator minus poles decided exactly on the expression the library was given; trigonometric image sets enumerated for n=-8..8 against closed-form solutions; linsolve by exact A*x == b',
+         'Degree 0-4 polynomials (repeated, zero, complex and irrational roots, zero leading coefficients, zero polynomial) in expanded and factored form through solve / solve_poly / solve_poly_heuristics over the complex numbers and the reals; quotients with common factors; a*f(b*x+c)=d for sin, cos, tan incl. right-hand sides without real solutions; 1-4 dimensional linear systems.',
+         'Returned sets of a shape the monitor does not model (ConditionSet, Complement) are counted, not judged; n ranges over the integers (the library prints the base set as (-oo, oo)).', 'DESIGN.md 3/C30'),
+ 'C31': (['asan'], 'event-log monitor vs exact truncated power-series arithmetic in the monitor (functions applied by composition of closed-form Maclaurin coefficients over Fractions - independent of the library recurrences); expansions around a non-zero inner constant vs mpmath.taylor at 60 digits; get_coeff / as_dict consistency',
+         'Compositions of depth <= 3 of the 13 supported functions, rational powers, quotients, products and sums with rational coefficients, expanded to 1-14 terms; every coefficient compared exactly.',
+         'Inner series must have zero constant term for the exact reference (otherwise the numeric reference is used, to 1e-12).', 'DESIGN.md 3/C31'),
 }
 
 def main():
